@@ -41,6 +41,9 @@
 EXTENDS Integers, Sequences, FiniteSets, TLC, Json
 
 CONSTANTS DBs,               \* database names (strings)
+          Reps,              \* replicas in this configuration: subset of {"n2", "n3"}. The primary does not depend
+                             \* on its replicas and every property is per replica, so the one-replica
+                             \* configurations decide the same properties with larger budgets
           Filter,            \* the filter of replica n2 (non-empty subset of DBs); n3 has none
           MaxTx,             \* budget of commits + drops on the primary
           MaxFaults,         \* budget of Block / Restart / Sweep
@@ -52,10 +55,11 @@ CONSTANTS DBs,               \* database names (strings)
           OwnEntry,          \* TRUE as coded: streamDB(name) reads the position-map entry of `name`
           ChkCompare,        \* TRUE as coded: equal TXID but different checksum clears the believed position
           ApplyDropFrame,    \* FALSE as coded: the replica ignores DropDB frames
+          Wire,              \* frames the stream can hold between server and replica (flow-control window)
           Emit               \* "none" | "final"
 
 P == "n1"
-R == {"n2", "n3"}
+R == Reps
 FilterOf(r) == IF r = "n2" THEN Filter ELSE {}
 Passes(r, d) == FilterOf(r) = {} \/ d \in FilterOf(r)
 Restrict(r, S) == IF FilterOf(r) = {} THEN S ELSE S \cap FilterOf(r)
@@ -213,7 +217,7 @@ FileAt(d, t) == {i \in 1..Len(plog[d]) : plog[d][i].t = t}
 
 \* one iteration of streamDB(d) for the stream of replica r
 Send(r, d) ==
-  /\ conn[r] /\ d \in dirty[r] /\ (cur[r] = None \/ cur[r] = d) /\ Len(inflight[r]) < 2
+  /\ conn[r] /\ d \in dirty[r] /\ (cur[r] = None \/ cur[r] = d) /\ Len(inflight[r]) < Wire
   /\ IF ~pex[d]
      THEN \* the primary does not have this database: DropDB frame, forget the entry
           /\ inflight' = [inflight EXCEPT ![r] = Append(@, [k |-> "drop", d |-> d, snap |-> FALSE, t |-> 0, pre |-> Z, post |-> Z])]
